@@ -7,7 +7,7 @@
                   and the model's loader agrees with the real loader on every observed state;
      check_spec : clauses (a) (b) (c) of the property on the observations alone.                                   *)
 From Coq Require Import List NArith Bool.
-Require Import QV.common.Util QV.C11.Model QV.C11.Spec QV.C11.Guard.
+Require Import QV.common.Util QV.C11.Model QV.C11.Spec QV.C11.Guard QV.C11.Repair.
 Import ListNotations.
 Open Scope N_scope.
 
@@ -38,7 +38,7 @@ Fixpoint load_cache (fuel : nat) (s : store) (base : N) (c : cache) (i : id) : c
   end.
 
 Definition op_state (b : backend) (d : disk) (c : cache) (o : op) : disk * cache :=
-  match plan_of current b d c o with
+  match plan_of2 current b d c o with
   | PErr _ => (d, c)
   | PNoop c' => (d, c')
   | PSteps s c' => (run s d, c')
@@ -99,7 +99,7 @@ Definition check_corr (c : case) : bool :=
   | CCrash => false
   | CStore b hist fin before nofault after crashes post after_post kills =>
       let '(d0, c0) := run_hops b empty_disk [] hist in
-      let pl := plan_of current b d0 c0 fin in
+      let pl := plan_of2 current b d0 c0 fin in
       vis_eqb (vis_of_disk d0) (vis_of_obs before)
       && (match pl, nofault with
           | PErr e, OutErr e' => err_eqb e e'
@@ -120,7 +120,7 @@ Definition check_corr (c : case) : bool :=
               | Some po =>
                   forallb (fun x =>
                     existsb (fun dk => vis_eqb (vis_of_disk dk) (vis_of_obs (seen x))
-                                       && vis_eqb (vis_of_disk (fst (run_ops current b dk [] [po])))
+                                       && vis_eqb (vis_of_disk (fst (run_ops2 current b dk [] [po])))
                                                   (vis_of_obs (seen_post x)))
                             (prefix_states (steps_of pl) d0)) seq
                   && forallb loader_agrees (map seen_post seq)
@@ -131,10 +131,10 @@ Definition check_corr (c : case) : bool :=
               (* the follow-up operation: on the cache as it was for a failed operation, on the updated cache
                  for the completed one *)
               let c1 := match pl with PSteps _ c' | PNoop c' => c' | PErr _ => c0 end in
-              vis_eqb (vis_of_disk (fst (run_ops current b (run (steps_of pl) d0) c1 [po]))) (vis_of_obs after_post)
+              vis_eqb (vis_of_disk (fst (run_ops2 current b (run (steps_of pl) d0) c1 [po]))) (vis_of_obs after_post)
               && forallb (fun x =>
                    existsb (fun dk => vis_eqb (vis_of_disk dk) (vis_of_obs (seen x))
-                                      && vis_eqb (vis_of_disk (fst (run_ops current b dk c0 [po])))
+                                      && vis_eqb (vis_of_disk (fst (run_ops2 current b dk c0 [po])))
                                                  (vis_of_obs (seen_post x)))
                            (prefix_states (steps_of pl) d0)) crashes
               && forallb loader_agrees (after_post :: map seen_post crashes)
@@ -204,7 +204,7 @@ Definition dup_guard_op (o : op) : bool :=
 (* round 3: the buffer guard of the operation, if the operation gets as far as flushing a buffer in this state *)
 (* round 4: the EXACT guard (C11_crash_safe_exact: clause (a) fails at some interruption point iff the operation is
    outside it; clauses (b), (c) need no guard) *)
-Definition tx_guard_op (b : backend) (d : disk) (c : cache) (o : op) : bool := guard_C11_exact d c o.
+Definition tx_guard_op (b : backend) (d : disk) (c : cache) (o : op) : bool := guard2_exact d c o.
 
 (* (dup guard, cycle guard, buffer guard) over a failure-free history *)
 Fixpoint hist_guards (b : backend) (d : disk) (c : cache) (l : list hop) : bool * bool * bool :=
@@ -227,7 +227,7 @@ Definition finding_of (c : case) : N :=
   | CStore b hist fin before nofault after crashes post after_post kills =>
       if negb (check_corr c) then 0 else
       let '(d0, c0) := run_hops b empty_disk [] hist in
-      let pl := plan_of current b d0 c0 fin in
+      let pl := plan_of2 current b d0 c0 fin in
       let states := prefix_states (steps_of pl) d0 in
       let c1 := match pl with PSteps _ c' | PNoop c' => c' | PErr _ => c0 end in
       let '(h1, h2, h3) := hist_guards b empty_disk [] hist in
@@ -237,7 +237,9 @@ Definition finding_of (c : case) : N :=
                                   || negb (tx_guard_op b (run (steps_of pl) d0) c1 po)
                      | None => false
                      end in
+      (* after the repair of dup-id-in-transaction (R1, R2 in Repair.v) the encoder rejects every template in which an
+         identifier names two objects: what is left outside the exact guard is overwrite-creates-cycle
+         (C11_repaired_crash_safe: the cycle guard alone implies the exact guard) *)
       if h3 && tx_guard_op b d0 c0 fin && negb post_tx then 0
-      else if negb h1 || negb (dup_guard_op fin) || post_dup then 1
       else 2
   end.
